@@ -123,7 +123,7 @@ def cases(tier, seed):  # noqa: ARG001
     for w in WITNESSES:
         yield dict(w)
     reps = set(G.representative_families())
-    per_rep, per_other = (6, 2) if tier == "quick" else (120, 120)
+    per_rep, per_other = (12, 4) if tier == "quick" else (120, 120)
     for fam in G.families():
         draws = per_rep if fam in reps else per_other
         for idx, info in enumerate(G.images(fam)):
